@@ -29,6 +29,7 @@ TIERS = {
     "quick": dict(
         parts=[dict(Part='"all"', MaxN=3, Big=0, Rich=0, Cap=1000)],
         zerovar=[dict(Part='"all"', MaxN=2, Big=0, Rich=0, Cap=300)],
+        special=[dict(Part='"all"', MaxN=2, Big=0, Rich=0, Cap=1000)],
         sim=None,
         ji=[(2, 4), (3, 3)], ji_bug=[(2, 3), (3, 3)], walk_every=3,
         record=(200, 1)),
@@ -37,6 +38,7 @@ TIERS = {
                dict(Part='"mat"', MaxN=4, Big=1, Rich=1, Cap=8000),
                dict(Part='"prod"', MaxN=4, Big=1, Rich=1, Cap=8000)],
         zerovar=[dict(Part='"all"', MaxN=3, Big=1, Rich=0, Cap=1000)],
+        special=[dict(Part='"all"', MaxN=2, Big=0, Rich=0, Cap=1000)],
         sim=dict(num=6000, SimN=8),
         ji=[(2, 5), (3, 4)], ji_bug=[(2, 3), (3, 3)], walk_every=3,
         record=(400, 6)),
@@ -208,6 +210,10 @@ def vacuity(summary, mode):
     missing = [c for c in ctors if summary.get("by_op", {}).get("Ctor:" + c, 0) == 0]
     if missing:
         raise vlib.Infra("vacuous enumeration: generic constructors never exercised: %s" % missing)
+    need = ["ratio:VdivS", "ratio:VdivV", "ratio:MdivS", "ratio:MdivM", "big:MdotV", "big:VdotM", "big:Set", "view:Equals", "view:MaddM"]
+    miss = [k for k in need if summary.get("by_op", {}).get(k, 0) == 0]
+    if miss:
+        raise vlib.Infra("vacuous enumeration: case sets never replayed: %s" % miss)
     if summary.get("by_op", {}).get("Equals:eps", 0) == 0:
         raise vlib.Infra("vacuous enumeration: no Equals case with the epsilon dimension")
     rk = summary.get("recv_kinds", {})
@@ -233,11 +239,12 @@ def run(ctx):
     ctx.extra["jointiter"] = {"real_walks": ws["walks"], "visits": ws["visits"], "drift": ws["drift"]}
     # 2. exhaustive cases
     total = {}
-    runs = [("c03-" + str(i), p, False) for i, p in enumerate(conf["parts"])] + \
-           [("zerovar-" + str(i), p, True) for i, p in enumerate(conf["zerovar"])]
+    runs = [("c03-" + str(i), p, False, False) for i, p in enumerate(conf["parts"])] + \
+           [("zerovar-" + str(i), p, True, False) for i, p in enumerate(conf["zerovar"])] + \
+           [("special-" + str(i), p, False, True) for i, p in enumerate(conf["special"])]
     sampled = False
-    for label, consts, zv in runs:
-        cases, res = gen_cases(ctx, "c03", consts, label, zerovar=zv)
+    for label, consts, zv, sp in runs:
+        cases, res = gen_cases(ctx, "c03", consts, label, zerovar=zv, special=sp)
         if not sampled:
             with open(cases) as f:
                 for _ in range(2000):
@@ -248,7 +255,13 @@ def run(ctx):
         s = run_replay(ctx, binary, cases, "c03", label)
         ctx.log("%s: %d records -> %d cases replayed (x9 element types incl.), mismatches=%d"
                 % (label, s["records"], s["cases"], s["mismatches"]))
-        if not zv:
+        if sp:
+            if any(s.get("by_op", {}).get(o, 0) == 0 for o in ("VmulV", "VdivV", "MmulM", "MdivM")):
+                raise vlib.Infra("vacuous special-operand run (Inf/NaN opposite zeros)")
+            ctx.extra["special_operand_cases"] = s["cases"]
+            total["cases_zerovar"] = total.get("cases_zerovar", 0) + s["cases"]
+            total["records_zerovar"] = total.get("records_zerovar", 0) + s["records"]
+        elif not zv:
             merge_summary(total, s)
         else:
             ctx.extra.setdefault("zero_valued_variable_cases", 0)
